@@ -899,7 +899,7 @@ def gen_step(world, cfg, rng):
 
     if op == 'from_list':
         cname = x.cname
-        k = rng.choice([1, 2, 2, 3, 4])
+        k = rng.choice([1, 2, 2, 3, 4, 5, 8, 12])
         items = []
         for _ in range(k):
             j = pick(lambda o: o.cname == cname and len(o.model) == 1)
